@@ -564,11 +564,35 @@ func evaluate(in input, report reporter) {
 		return
 	}
 	for _, v := range in.variants {
+		if gatedVariant(v, in) {
+			continue
+		}
 		c := Case{Kind: in.kind, Text: in.text, Module: in.module, NoMain: in.noMain, Variant: v}
 		resp, f := analyzeWith(px.Pool(), c)
 		accountAnalyze(c, resp, f, tokensOK, in.depthHint)
 		report(c, f)
 	}
+}
+
+// Gate "module-cycle": while a finding about import cycles between imported modules is open, every
+// case of the variants that build such a cycle dies the same (slow: the stack grows to 1 GB) death;
+// only one in 64 of them is then executed, the rest is counted as gated.
+func gatedVariant(v string, in input) bool {
+	if v != "mod-self" && v != "cycle" && !strings.Contains(in.kind, "chain-cycle") {
+		return false
+	}
+	if !pk.GateOpen("module-cycle") {
+		return false
+	}
+	h := uint32(2166136261)
+	for i := 0; i < len(in.text); i++ {
+		h = (h ^ uint32(in.text[i])) * 16777619
+	}
+	if h%64 == 0 {
+		return false
+	}
+	pk.Gate("module-cycle")
+	return true
 }
 
 // ---------------------------------------------------------------------------------------------
